@@ -103,6 +103,7 @@ package ugm
 //@   mode nopanic=off
 //@   at[user] call ugm.UserTracker.increaseTrackedResource#1: assert arg0 == userTracker && arg1 == queuePath && arg2 == applicationID && arg3 == usage
 //@   at[group] call ugm.GroupTracker.increaseTrackedResource#1: assert arg0 == groupTracker && arg1 == queuePath && arg2 == applicationID && arg3 == usage && ncalls(ugm.UserTracker.increaseTrackedResource) == 1
+//@   at[live] call ugm.GroupTracker.increaseTrackedResource#1: assert arg0 != nil && (exists k string :: arg0 == m.groupTrackers[k])
 //@   ensures[charged] queuePath != "" && applicationID != "" && usage != nil && user.User != "" ==> ncalls(ugm.UserTracker.increaseTrackedResource) == 1
 //@   ensures[ignored] !(queuePath != "" && applicationID != "" && usage != nil && user.User != "") ==> ncalls(ugm.UserTracker.increaseTrackedResource) == 0 && ncalls(ugm.GroupTracker.increaseTrackedResource) == 0
 
@@ -112,6 +113,7 @@ package ugm
 //@   mode nopanic=off
 //@   at[user] call ugm.UserTracker.decreaseTrackedResource#1: assert arg0 == userTracker && arg1 == queuePath && arg2 == applicationID && arg3 == usage && arg4 == removeApp
 //@   at[group] call ugm.GroupTracker.decreaseTrackedResource#1: assert arg0 == groupTracker && arg1 == queuePath && arg2 == applicationID && arg3 == usage && arg4 == removeApp && ncalls(ugm.UserTracker.decreaseTrackedResource) == 1
+//@   at[live] call ugm.GroupTracker.decreaseTrackedResource#1: assert arg0 != nil && (exists k string :: arg0 == m.groupTrackers[k])
 //@   at[grouplookup] call ugm.UserTracker.getGroupForApp#1: assert ncalls(ugm.UserTracker.decreaseTrackedResource) == 0
 
 // headroom is the component-wise minimum of the user's and the group's answer whenever the application has a group
@@ -123,6 +125,7 @@ package ugm
 //@   sweep
 //@   mode nopanic=off
 //@   at[both] call resources.ComponentWiseMin#1: assert arg0 == userHeadroom && arg1 == groupHeadroom
+//@   at[live] call ugm.GroupTracker.headroom#1: assert arg0 != nil && (exists k string :: arg0 == m.groupTrackers[k])
 //@   ensures[asked] ncalls(ugm.UserTracker.headroom) == 1
 //@   ensures[min] ncalls(ugm.GroupTracker.headroom) == 1 ==> ncalls(resources.ComponentWiseMin) == 1
 
@@ -132,6 +135,7 @@ package ugm
 //@   mode nopanic=off
 //@   at[user] call ugm.UserTracker.canRunApp#1 after: assume ret <==> ucan(m)
 //@   at[group] call ugm.GroupTracker.canRunApp#1 after: assume ret <==> gcan(m)
+//@   at[live] call ugm.GroupTracker.canRunApp#1: assert arg0 != nil && (exists k string :: arg0 == m.groupTrackers[k])
 //@   ensures[both] ok ==> ncalls(ugm.UserTracker.canRunApp) == 1 && ucan(m) && (ncalls(ugm.GroupTracker.canRunApp) == 1 ==> gcan(m))
 
 // reload: every named user (group) of every limit entry of a queue is recorded in the new ledger under that queue
